@@ -476,6 +476,97 @@ func main() {
 		}
 		sb.WriteString("]\n")
 	}
+	// ---- F6 the command line tools: WHICH flag reaches WHICH parameter of the library call ----
+	// for every call in package cmd to one of the library entry points, the arguments in order: a
+	// variable bound to a flag is rendered as "flag:<long name>" (whatever the variable is called),
+	// anything else as its source text
+	cmdPkgs, cerr := parser.ParseDir(fset, filepath.Join(*repo, "cmd"), func(fi os.FileInfo) bool { return !strings.HasSuffix(fi.Name(), "_test.go") }, 0)
+	type cliCall struct {
+		callee string
+		args   []string
+	}
+	var cliCalls []cliCall
+	if cerr == nil {
+		if cp := cmdPkgs["cmd"]; cp != nil {
+			var cnames []string
+			for n := range cp.Files {
+				cnames = append(cnames, n)
+			}
+			sort.Strings(cnames)
+			flagOf := map[string]string{}
+			for _, n := range cnames {
+				ast.Inspect(cp.Files[n], func(nd ast.Node) bool {
+					ce, ok := nd.(*ast.CallExpr)
+					if !ok {
+						return true
+					}
+					se, ok := ce.Fun.(*ast.SelectorExpr)
+					if !ok || !strings.Contains(se.Sel.Name, "Var") || len(ce.Args) < 2 {
+						return true
+					}
+					ue, ok := ce.Args[0].(*ast.UnaryExpr)
+					if !ok || ue.Op != token.AND {
+						return true
+					}
+					id, ok := ue.X.(*ast.Ident)
+					bl, ok2 := ce.Args[1].(*ast.BasicLit)
+					if ok && ok2 && bl.Kind == token.STRING {
+						if name, err := strconv.Unquote(bl.Value); err == nil {
+							flagOf[id.Name] = name
+						}
+					}
+					return true
+				})
+			}
+			entry := map[string]bool{"InTotoRun": true, "InTotoRecordStart": true, "InTotoRecordStop": true, "InTotoVerify": true,
+				"InTotoVerifyWithDirectory": true, "InTotoMatchProducts": true}
+			for _, n := range cnames {
+				ast.Inspect(cp.Files[n], func(nd ast.Node) bool {
+					ce, ok := nd.(*ast.CallExpr)
+					if !ok {
+						return true
+					}
+					se, ok := ce.Fun.(*ast.SelectorExpr)
+					if !ok || !entry[se.Sel.Name] {
+						return true
+					}
+					if x, ok := se.X.(*ast.Ident); !ok || x.Name != "intoto" {
+						return true
+					}
+					c := cliCall{callee: se.Sel.Name}
+					for _, a := range ce.Args {
+						if id, ok := a.(*ast.Ident); ok {
+							if fl, ok := flagOf[id.Name]; ok {
+								c.args = append(c.args, "flag:"+fl)
+							} else {
+								c.args = append(c.args, "var") // some other variable: its name is no fact
+							}
+							continue
+						}
+						c.args = append(c.args, strings.Join(strings.Fields(typeString(fset, a)), " "))
+					}
+					cliCalls = append(cliCalls, c)
+					return true
+				})
+			}
+		}
+	}
+	sb.WriteString("/-- (library entry point, its arguments in order) for every call made by the command line tools (package cmd); `flag:<name>` = the variable the flag of that name is bound to -/\n")
+	sb.WriteString("def cliCalls : List (List Char × List (List Char)) := [")
+	for i, c := range cliCalls {
+		if i > 0 {
+			sb.WriteString(", ")
+		}
+		fmt.Fprintf(&sb, "(%s, [", leanStr(c.callee))
+		for k, a := range c.args {
+			if k > 0 {
+				sb.WriteString(", ")
+			}
+			sb.WriteString(leanStr(a))
+		}
+		sb.WriteString("])")
+	}
+	sb.WriteString("]\n")
 	sb.WriteString("\nend InToto.Generated\n")
 	if *out == "" {
 		fmt.Print(sb.String())
